@@ -10,12 +10,14 @@ import (
 	"golang.org/x/tools/go/ssa"
 
 	"verifchecker/internal/engine"
+	"verifchecker/internal/sqlx"
 )
 
 func init() { register("C09", c09) }
 
 func c09(c *Ctx) {
 	defer c.truncationIsAnError()
+	defer c09pathAgreement(c)
 	defer c.hashIsOfInput()
 	P, R := c.P, c.R
 	R.Explain("R09.1", "T-GUARDED/T-PAIR: in WriteControlledStore.Get/Set/Delete the call into the wrapped store is dominated by acquireSyncRef(id) for the same id and by RLock (Get) / Lock (Set, Delete) on that entry's lock, with the unlock and releaseSyncRef deferred; only the two *Unchecked methods bypass it.")
@@ -738,4 +740,85 @@ func (c *Ctx) hashIsOfInput() {
 		}
 	}
 	R.Min("R09.8", "hash.Sum call sites", n, 2)
+}
+
+// c09pathAgreement (R09.9): all file operations of the on-disk store name an entry's file in the same, injective way.
+func c09pathAgreement(c *Ctx) {
+	P, R := c.P, c.R
+	R.Explain("R09.9", "IDs do not influence each other, and Set/Get/Delete agree on the file: every os.Open / OpenFile / Create / Remove / Rename / Stat in a method of store.onDiskStore that handles a message id takes filepath.Join(<the store's path field>, <InternalMessageID.String() of that id>) - the full textual id, the same expression in every sibling - and List turns file names back into ids with imap.InternalMessageIDFromString.  A shortened or differently derived name makes two ids share a file or makes Get/Delete miss what Set wrote.")
+	pathFld := c.fieldOf("store", "onDiskStore", "path")
+	n := 0
+	for _, f := range c.funcsInPkg("store") {
+		if f.Signature.Recv() == nil || !strings.Contains(f.Signature.Recv().Type().String(), "onDiskStore") {
+			continue
+		}
+		for _, cs := range engine.Calls(f) {
+			sc := cs.Common().StaticCallee()
+			if sc == nil || engine.PkgPathOf(sc) != "os" || sc.Signature.Recv() != nil {
+				continue
+			}
+			switch sc.Name() {
+			case "Open", "OpenFile", "Create", "Remove", "Rename", "Stat", "ReadFile", "WriteFile":
+			default:
+				continue
+			}
+			n++
+			why := pathExprWhy(cs.Common().Args[0], pathFld, 0)
+			R.Check(why == "", "R09.9", c.name(f)+"|os."+sc.Name()+" path", P.Pos(cs.Pos()), "filepath.Join(c.path, id.String())", why)
+		}
+	}
+	R.Min("R09.9", "file operations by id in onDiskStore", n, 3)
+	// List: names -> ids through InternalMessageIDFromString
+	lst := c.fn("R09.9", "store.(*onDiskStore).List")
+	if lst != nil {
+		ok := false
+		for _, g := range append([]*ssa.Function{lst}, lst.AnonFuncs...) {
+			for _, cs := range engine.Calls(g) {
+				if sc := cs.Common().StaticCallee(); sc != nil && engine.BaseName(sc) == "InternalMessageIDFromString" {
+					ok = true
+				}
+			}
+		}
+		R.Check(ok, "R09.9", c.name(lst)+"|names parsed back", P.Pos(lst.Pos()), "List parses file names with InternalMessageIDFromString", "List does not turn file names back into ids with imap.InternalMessageIDFromString (the inverse of the name Set uses)")
+	}
+}
+
+// pathExprWhy explains why v is not filepath.Join(<store path field>, <InternalMessageID.String()>), looking
+// through helpers of package store that return such an expression ("" = it is).
+func pathExprWhy(v ssa.Value, pathFld *types.Var, depth int) string {
+	call, ok := v.(*ssa.Call)
+	if !ok || call.Call.StaticCallee() == nil {
+		return "the file name is not built by filepath.Join (directly or in a helper of the store)"
+	}
+	sc := call.Call.StaticCallee()
+	if engine.PkgPathOf(sc) == "path/filepath" && sc.Name() == "Join" {
+		elems, okE := sqlx.VarargElems(call.Call.Args[0])
+		if !okE || len(elems) != 2 {
+			return "filepath.Join does not take exactly (store path, id)"
+		}
+		if u, ok := elems[0].(*ssa.UnOp); !ok || !fieldAddrIs(u.X, pathFld) {
+			return "the directory is not the store's path field"
+		}
+		idc, ok := elems[1].(*ssa.Call)
+		if !ok || idc.Call.StaticCallee() == nil || engine.BaseName(idc.Call.StaticCallee()) != "String" || !strings.Contains(idc.Call.StaticCallee().String(), "InternalMessageID") {
+			return "the file name is not InternalMessageID.String() of the id (full textual id)"
+		}
+		return ""
+	}
+	if depth < 2 && strings.HasSuffix(engine.PkgPathOf(sc), "/store") && len(sc.Blocks) > 0 {
+		rets := engine.Returns(sc)
+		if len(rets) == 0 {
+			return "the path helper never returns"
+		}
+		for _, r := range rets {
+			if len(r.Results) != 1 {
+				return "the path helper does not return a single path"
+			}
+			if why := pathExprWhy(r.Results[0], pathFld, depth+1); why != "" {
+				return why + " (in " + engine.ShortName(sc) + ")"
+			}
+		}
+		return ""
+	}
+	return "the file name is not built by filepath.Join (directly or in a helper of the store)"
 }
